@@ -61,6 +61,22 @@ pub broadcast axiom fn axiom_f64_neg_involution(a: f64)
 pub broadcast axiom fn axiom_f64_max_eq_self()
     ensures #[trigger] feq(f64_max(), f64_max());
 
+// value facts used by the hop-count kernels only (levels are 0.0, 1.0, 2.0, ...): 0.0 is not f64::MAX, x + 1.0 is f64::MAX only if x
+// is, and IEEE == is Euclidean (two values equal to a third are equal). Not in the default group: called explicitly.
+// All three are checked on the machine's f64 by the Kani lemma a1_float_identities.
+#[verifier::external_body]
+pub proof fn axiom_f64_zero_not_max()
+    ensures !feq(0.0f64, f64_max()),
+{}
+#[verifier::external_body]
+pub proof fn axiom_f64_succ_not_max(x: f64)
+    ensures !feq(x, f64_max()) ==> !feq(fadd(x, 1.0f64), f64_max()),
+{}
+#[verifier::external_body]
+pub proof fn axiom_f64_eq_euclidean(a: f64, b: f64, c: f64)
+    ensures feq(a, b) && feq(a, c) ==> feq(b, c),
+{}
+
 pub broadcast group group_f64_axioms {
     axiom_f64_lt_irreflexive, axiom_f64_neg_involution, axiom_f64_max_eq_self,
     axiom_f64_lt, axiom_f64_gt, axiom_f64_le, axiom_f64_ge, axiom_f64_eq, axiom_f64_ne,
